@@ -31,11 +31,37 @@ class Fn:
             self.blocks[m.group(1)] = (lines[:-1], lines[-1], bool(m.group(2)))
 
 
+PROMOTED = {}   # "<fn path>::promoted[N]" -> literal it refers to (only promoted references to a literal)
+
+
 def split_functions(mir_text):
     fns = {}
     for m in re.finditer(r"^fn (.*?)\((.*?)\) -> .*? \{\n.*?^\}", mir_text, re.M | re.S):
         fns[m.group(1).strip()] = m.group(0)
+    PROMOTED.clear()
+    for m in re.finditer(r"^const (\S[^\n]*?::promoted\[\d+\]): [^\n]*= \{\n(.*?)^\}", mir_text, re.M | re.S):
+        vals = {}
+        for a in re.finditer(r"^\s+(_\d+) = (.*);$", m.group(2), re.M):
+            rhs = a.group(2).strip()
+            mm = re.fullmatch(r"&\(?\*?(_\d+)\)?", rhs) or re.fullmatch(r"(?:copy|move) (_\d+)", rhs)
+            if mm:
+                vals[a.group(1)] = vals.get(mm.group(1))
+            elif rhs.startswith("const ") and not re.search(r"promoted\[", rhs):
+                vals[a.group(1)] = rhs[6:].strip()
+            else:
+                vals[a.group(1)] = None
+        if vals.get("_0") is not None:
+            PROMOTED[m.group(1)] = vals["_0"]
     return fns
+
+
+def promoted_literal(const_text):
+    """`path::<generics>::promoted[N]` at a use site -> the literal, if the promoted body is a reference to one"""
+    if "::promoted[" not in const_text:
+        return None
+    flat = re.sub(r"::<[^<>]*(?:<[^<>]*(?:<[^<>]*>[^<>]*)*>[^<>]*)*>", "", const_text)
+    hits = [v for k, v in PROMOTED.items() if flat == k or flat.endswith("::" + k)]
+    return hits[0] if len(hits) == 1 else None
 
 
 def norm_place(txt, alias):
@@ -115,6 +141,17 @@ class Executor:
         m = re.fullmatch(r"(.+)\[(\d+) of \d+\]", txt)
         if m:
             return ("idx", self.place(p, m.group(1)), int(m.group(2)))
+        m = re.fullmatch(r"(.+)\[(_\d+)\]", txt)
+        if m:
+            base = self.place(p, m.group(1))
+            ix = self.place(p, m.group(2))
+            mm = re.fullmatch(r"(\d+)_usize", ix[1]) if isinstance(ix, tuple) and ix[0] == "const" else None
+            if mm:
+                k = int(mm.group(1))
+                if isinstance(base, tuple) and base[0] == "tuple" and k < len(base[1]):
+                    return base[1][k]
+                return ("idx", base, k)
+            return ("index", base, ix)
         m = re.fullmatch(r"\(\*(.+)\)", txt)
         if m:
             return self.place(p, m.group(1))
@@ -137,7 +174,10 @@ class Executor:
         if txt.startswith(("copy ", "move ")):
             return self.place(p, txt[5:])
         if txt.startswith("const "):
-            return ("const", txt[6:].strip())
+            lit = promoted_literal(txt[6:].strip())
+            # only numeric literals are substituted (cli_check resolves promoted strings itself)
+            numeric = lit is not None and re.fullmatch(r"-?[\d.]+(e-?\d+)?f64|-?\d+_[ui]\w+", lit)
+            return ("const", lit if numeric else txt[6:].strip())
         return self.place(p, txt)
 
     def root_local(self, txt):
@@ -184,9 +224,11 @@ class Executor:
                     k, v = f.split(":", 1)
                     fields[k.strip()] = self.operand(p, v)
             val = ("closure", mm.group(1) if mm else rhs, fields)
-        elif re.fullmatch(r"[A-Z][\w]*(::<.*>)?::[A-Z]\w*\((.+)\)", rhs):
-            mm = re.fullmatch(r"([A-Z][\w]*)(?:::<.*>)?::([A-Z]\w*)\((.+)\)", rhs)
+        elif re.fullmatch(r"(?:[a-z_]\w*::)*[A-Z][\w]*(::<.*>)?::[A-Z]\w*\((.+)\)", rhs):
+            mm = re.fullmatch(r"(?:[a-z_]\w*::)*([A-Z][\w]*)(?:::<.*>)?::([A-Z]\w*)\((.+)\)", rhs)
             val = ("agg", mm.group(2), {str(i): self.operand(p, a) for i, a in enumerate(split_args(mm.group(3)))})
+            if mm.group(2) == "Some" and len(val[2]) == 1:
+                val = ("some", val[2]["0"])     # one representation of Some(x) everywhere
         elif re.fullmatch(r"[^=]*::(Ok|Err|Continue|Break)\((.+)\)", rhs) and not rhs.startswith(("copy ", "move ")):
             mm = re.fullmatch(r"[^=]*::(Ok|Err|Continue|Break)\((.+)\)", rhs)
             val = ("agg", mm.group(1), {"0": self.operand(p, mm.group(2))})
@@ -214,6 +256,9 @@ class Executor:
         elif re.fullmatch(r"(PtrMetadata|Len|UnaryOp)\((.+)\)", rhs):
             mm = re.fullmatch(r"(\w+)\((.+)\)", rhs)
             val = ("call", mm.group(1), [self.operand(p, mm.group(2))])
+        elif re.fullmatch(r"\[(.+); (\d+)\]", rhs) and int(re.fullmatch(r"\[(.+); (\d+)\]", rhs).group(2)) <= 4:
+            mm = re.fullmatch(r"\[(.+); (\d+)\]", rhs)
+            val = ("tuple", [self.operand(p, mm.group(1))] * int(mm.group(2)))
         elif re.fullmatch(r"\[.*\]", rhs) or re.fullmatch(r"\(.*\)", rhs):
             inner = rhs[1:-1]
             val = ("tuple", [self.operand(p, x) for x in split_args(inner)])
@@ -230,6 +275,13 @@ class Executor:
             if m:
                 base = p.env.get(m.group(1), ("sym", f"{self.fn.name}:{m.group(1)}"))
                 p.env[m.group(1)] = ("upd", base, int(m.group(2)), val)
+            elif re.match(r"\(\(\*_\d+\)\[", lhs):
+                # store into a field of an indexed element behind a reference: recorded, not read back
+                m = re.match(r"\(\(\*(_\d+)\)\[(_\d+)\]\.(\d+): ", lhs)
+                if m:
+                    p.stores.append((("index", p.env.get(m.group(1), ("sym", f"{self.fn.name}:{m.group(1)}")), p.env.get(m.group(2), ("sym", f"{self.fn.name}:{m.group(2)}"))), val, len(p.calls), lhs))
+                else:
+                    self.unknown.append("store: " + lhs)
             elif lhs.startswith("(*"):
                 # store through a reference: not read back by later loads, but recorded for the analyses
                 m = re.match(r"\(\*(_\d+)\)", lhs)
@@ -297,7 +349,7 @@ class Executor:
             scrut = self.operand(p, m.group(1))
             arms = split_args(m.group(2))
             taken = []
-            if isinstance(scrut, tuple) and scrut[0] == "const":
+            if isinstance(scrut, tuple) and scrut[0] == "const" and re.fullmatch(r"true|false|-?\d+(_(u|i)\w+)?", scrut[1]):
                 # drop flags and other constants: follow the matching arm only
                 cv = {"true": "1", "false": "0"}.get(scrut[1], re.sub(r"_(u|i)\w+$", "", scrut[1]))
                 target = None
